@@ -60,6 +60,28 @@ def _fingerprint(lib):
     return h.hexdigest()
 
 
+def parts(lib):
+    """the same data as `fingerprint`, kept apart: a digest per group and one for the uncertainty block (None: no such block)"""
+    with contextlib.redirect_stdout(io.StringIO()):
+        groups = {}
+        for g, psets in lib.contents.items():
+            rows = []
+            for n, c in psets.items():
+                cp = getattr(c, 'ND_Cp_data', None)
+                rows.append(repr((str(n), type(c).__name__, repr(getattr(c, 'ND_H_ref', None)), repr(getattr(c, 'ND_S_ref', None)),
+                                  sorted((repr(k), repr(v)) for k, v in (cp or {}).items()), repr(getattr(c, 'T_ref', None)),
+                                  repr(c.get_range()))))
+            groups[str(g)] = hashlib.sha1('\n'.join(sorted(rows)).encode()).hexdigest()
+        uq = lib.uq_contents
+        u = None
+        if uq:
+            r = uq['RMSE'].thermochem
+            u = hashlib.sha1(repr((sorted(map(str, uq.keys())), [str(x) for x in uq['descriptors']], hashlib.sha1(uq['mat'].tobytes()).hexdigest(),
+                                   repr(uq['dof']), repr(r.ND_H_ref), repr(r.ND_S_ref),
+                                   sorted((repr(k), repr(v)) for k, v in (r.ND_Cp_data or {}).items()))).encode()).hexdigest()
+        return {'groups': groups, 'uq': u}
+
+
 def canon_descr(d):
     return sorted([str(k), repr(float(v))] for k, v in dict(d).items())
 
@@ -68,13 +90,32 @@ def descr_dict(rows):
     return {k: float(v) for k, v in rows}
 
 
-QTYS = ['HoRT', 'SoR', 'CpoR', 'GoRT', 'H:kcal/mol', 'S:J/mol/K', 'G:kJ/mol', 'Cp:cal/mol/K', 'HoRT_SE', 'SoR_SE', 'CpoR_SE']
-ELEMENTAL = {'SoR', 'GoRT', 'S:J/mol/K', 'G:kJ/mol'}
+# Quantities.  A name `X!error` / `X!record` is quantity X asked for while the CALLER has a warnings filter in force: the
+# package's own warning categories turned into errors (`python -W error::pgradd.Error.IncompleteDataWarning`, pytest -W error),
+# or recorded with the `always` filter.  The filter is part of what the caller asks for — a declared input of the evaluation,
+# carried in the quantity index, which is an opaque number to the model — and the outcome (a value; the warning raised as
+# an exception; a value and how many warnings of which category) must not depend on earlier evaluations either.  The plain
+# names come first and keep their indices (recorded histories refer to quantities by index).
+PLAIN_QTYS = ['HoRT', 'SoR', 'CpoR', 'GoRT', 'H:kcal/mol', 'S:J/mol/K', 'G:kJ/mol', 'Cp:cal/mol/K', 'HoRT_SE', 'SoR_SE', 'CpoR_SE']
+FILTER_QTYS = ['HoRT!error', 'SoR!error', 'GoRT!error', 'CpoR!error', 'H:kcal/mol!error', 'G:kJ/mol!error',
+               'HoRT!record', 'SoR!record', 'GoRT!record', 'S:J/mol/K!record']
+QTYS = PLAIN_QTYS + FILTER_QTYS
+ELEMENTAL = {q for q in QTYS if q.split('!')[0] in ('SoR', 'GoRT', 'S:J/mol/K', 'G:kJ/mol')}
+
+
+def package_warnings():
+    """the warning categories the package defines"""
+    import pgradd.Error as E
+    return [c for c in vars(E).values() if isinstance(c, type) and issubclass(c, Warning) and c.__module__ == E.__name__]
 
 
 def evaluate(est, T, q, elemental):
-    """one evaluation of an estimate, canonicalised"""
-    try:
+    """one evaluation of an estimate, canonicalised: repr(value) | 'err:Class' and, for `!record`, the recorded warnings of
+    the package's categories as ' warned=Category*count,…' (never a message)"""
+    import warnings
+    q, _, mode = q.partition('!')
+
+    def call():
         kw = {'S_elements': True} if elemental else {}
         if ':' in q:
             f, units = q.split(':')
@@ -82,6 +123,23 @@ def evaluate(est, T, q, elemental):
         else:
             v = getattr(est, 'get_' + q)(T, **kw)
         return repr(float(v))
+    try:
+        if not mode:
+            return call()
+        with warnings.catch_warnings(record=(mode == 'record')) as rec:
+            warnings.simplefilter('ignore')
+            for c in package_warnings():
+                warnings.filterwarnings('error' if mode == 'error' else 'always', category=c)
+            try:
+                v = call()
+            except Exception as e:
+                v = 'err:' + exc_name(e)
+            if mode == 'record':
+                n = {}
+                for w in rec:
+                    n[w.category.__name__] = n.get(w.category.__name__, 0) + 1
+                v += ' warned=' + ','.join('%s*%d' % kv for kv in sorted(n.items()))
+            return v
     except Exception as e:
         return 'err:' + exc_name(e)
 
